@@ -155,7 +155,9 @@ class Family:
             summ = harness_summary(p)
             self.out.cov['traces_validated_against_impl'] += summ['pairs'] * 2
             self.validate(tr, 'model history served long-lived and persisted (%s)' % prog,
-                          lambda ev: dict(program=pj, history=hists[int(ev['sid'].rsplit('.h', 1)[1])], pair=dict(kind='mode', store=ev.get('store'))))
+                          lambda ev: dict(program=pj, history=hists[int(ev['sid'].rsplit('.h', 1)[1])],
+                                          pair=dict(kind=ev.get('kind', 'mode'), store=ev.get('store'),
+                                                    partner=hists[int(ev['partner'].rsplit('.h', 1)[1])] if ev.get('partner') else None)))
 
     def examples(self, nsess, maxreq, mode='LP'):
         """the repository's example applications, assembled by the real assembler, stub functions for their LOAD symbols"""
@@ -325,6 +327,22 @@ def replay_case(pid, path, trace_invs):
     d = core.scratch('verif-rp-')
     pp = os.path.join(d, 'prog.json')
     json.dump(case['program'], open(pp, 'w'))
+    pair = case.get('pair') or {}
+    if pair.get('kind') in ('mode', 'reuse') and 'picks' in case.get('history', {}) and (pair['kind'] == 'mode' or pair.get('partner')):
+        # two-run comparisons are replayed as such: both modes of the history, and (reuse) both sessions through one kept persister
+        hp = os.path.join(d, 'hists.ndjson')
+        hs = ([pair['partner']] if pair['kind'] == 'reuse' else []) + [case['history']]
+        open(hp, 'w').write(''.join(json.dumps(dict(h, tail=False)) + '\n' for h in hs))
+        tr = os.path.join(d, 'pairs.ndjson')
+        core.run_harness(['vise-pairs-hist', pp, hp, tr, pair.get('store') or 'mem'] + (['pairall'] if pair['kind'] == 'reuse' else []))
+        w = core.spec_copy({'vt.cfg': trace_cfg([i for i in trace_invs if i in ('C07_Equiv', 'C07_Reuse', 'C17_AsIfNeverSent')])})
+        viol, _ = core.validate_trace('ViseTrace', 'vt.cfg', tr, workdir=w)
+        if viol:
+            log('VIOLATION property=%s replay=%s' % (pid, path))
+            log('  %s: %s' % (viol[0][0], json.dumps(slim(viol[0][2]))[:500]))
+            return 1
+        log('replay: property holds on this case')
+        return 0
     hp = os.path.join(d, 'hist.ndjson')
     h = dict(case['history'], tail=False)
     open(hp, 'w').write(json.dumps(h) + '\n')
